@@ -32,6 +32,7 @@ var propPkgs = map[string][]string{
 	"C12": {"./internal/index/manager", "./internal/index"},
 	"C13": {"./internal/index/manager"},
 	"C16": {"./internal/index/manager", "./internal/index/converters"},
+	"C19": {"./cmd/pkappa2"},
 	"C06": {"./internal/index/manager"},
 	"C04": {"./internal/index"},
 }
@@ -39,7 +40,7 @@ var propPkgs = map[string][]string{
 // propLevel: the evidence level, equal to MANIFEST level_claimed.category. C02 is mostly a bounded
 // stand-in around one proved filter, so it is not claimed at proof level.
 func propLevel(prop string) string {
-	if prop == "C02" || prop == "C06" || prop == "C04" || prop == "C13" || prop == "C12" || prop == "C16" || prop == "C08" {
+	if prop == "C02" || prop == "C06" || prop == "C04" || prop == "C13" || prop == "C12" || prop == "C16" || prop == "C08" || prop == "C19" {
 		return "other"
 	}
 	return "proof"
